@@ -66,6 +66,73 @@ HOT_FUNCS = ("compile", "ensure_compiled", "_is_built", "f", "first_entry", "res
              "_lock_parents", "lock")
 
 
+_primed = False
+
+
+class _PrimeAbort(BaseException):
+    pass
+
+
+def prime_opcode_tracing():
+    """CPython 3.12 implements f_trace_opcodes through per-code-object instrumentation that only
+    takes effect from the *next* frame of that code object. To keep an execution independent of
+    what the process ran before, instrument every hot library code object once, up front: call a
+    throw-away function built on the code object under a tracer that asks for opcode events and
+    aborts the frame at its first event (no library line is executed)."""
+    global _primed
+    if _primed:
+        return
+    _primed = True
+    import types
+
+    import ovld.core
+    import ovld.mro
+    import ovld.typemap
+
+    codes = []
+
+    def walk(code):
+        if code.co_name in HOT_FUNCS:
+            codes.append(code)
+        for c in code.co_consts:
+            if isinstance(c, types.CodeType):
+                walk(c)
+
+    for mod in (ovld.core, ovld.typemap, ovld.mro):
+        for obj in vars(mod).values():
+            if isinstance(obj, types.FunctionType) and obj.__module__ == mod.__name__:
+                walk(obj.__code__)
+            elif isinstance(obj, type) and obj.__module__ == mod.__name__:
+                for m in vars(obj).values():
+                    fn = getattr(m, "__func__", m)
+                    if isinstance(fn, types.FunctionType):
+                        walk(fn.__code__)
+
+    def gt(frame, event, arg):
+        if frame.f_code in codeset:
+            frame.f_trace_opcodes = True
+            return lt
+        return None
+
+    def lt(frame, event, arg):
+        raise _PrimeAbort()
+
+    codeset = set(codes)
+    old = sys.gettrace()
+    for code in codes:
+        cells = tuple(types.CellType(None) for _ in code.co_freevars)
+        fn = types.FunctionType(code, {}, code.co_name, None, cells)
+        nargs = code.co_argcount + code.co_kwonlyargcount
+        sys.settrace(gt)
+        try:
+            fn(*([None] * code.co_argcount),
+               **{n: None for n in code.co_varnames[code.co_argcount:nargs]})
+        except BaseException:  # noqa: BLE001
+            pass
+        finally:
+            sys.settrace(old)
+
+
 class Sim:
     def __init__(self, trace_world=False, step_cap=400_000, record_locs=False,
                  monitor_codes=None, opcode_funcs=None):
@@ -89,6 +156,8 @@ class Sim:
         self.monitor_hits = []
         self.monitor_tagged = False  # record (thread, tag, label) instead of label
         self.opcode_funcs = opcode_funcs or ()
+        if self.opcode_funcs:
+            prime_opcode_tracing()
         self.monitor_tag = {}
         self.last_loc = None
 
